@@ -34,6 +34,8 @@ var kernels2 = []k2spec{
 	{pkg: "bloom", recv: "Filter", fn: "hash", name: "Filter_hash"},
 	{pkg: "bloom", recv: "Filter", fn: "matches", name: "Filter_matches"},
 	{pkg: "bloom", recv: "Filter", fn: "add", name: "Filter_add"},
+	{pkg: "bloom", recv: "Filter", fn: "matchesOutPoint", name: "Filter_matchesOutPoint"},
+	{pkg: "bloom", recv: "Filter", fn: "addOutPoint", name: "Filter_addOutPoint"},
 	{pkg: "bloom", recv: "merkleBlock", fn: "calcTreeWidth", name: "bloom_merkleBlock_calcTreeWidth"},
 	{pkg: "merkleblock", recv: "MerkleBlock", fn: "calcTreeWidth", name: "MerkleBlock_calcTreeWidth"},
 	{pkg: "merkleblock", recv: "PartialBlock", fn: "calcTreeWidth", name: "PartialBlock_calcTreeWidth"},
@@ -501,6 +503,11 @@ func (c *m2) translate2() (out string, err error) {
 		for _, n := range f.Names {
 			if n.Name == "_" {
 				c.fail(n, "blank parameter")
+			}
+			if _, isRoot := c.fieldPath(n); isRoot {
+				// a struct (or pointer to struct) parameter: the fields read become parameters
+				c.sig.structParams = true
+				continue
 			}
 			t := c.mt(c.p.info.Defs[n].Type(), n)
 			if t.k == mErr {
